@@ -34,7 +34,7 @@ def attr(case, n):
     args = []
     if case["kind"] == "eop":
         args.append("enter_on_poll = true")
-    if case["naming"] == "short":
+    if case["naming"] in ("short", "short_f"):
         args.append("short_name = true")
     elif case["naming"] == "custom":
         args.append('name = "custom_%d"' % n)
@@ -65,8 +65,10 @@ def gen_case(n, case):
     is_method = kind in ("method", "amethod", "atrait")
     head = "*path = fastrace::func_path!().to_string();"
     fns = []
+    isf = case["naming"] in ("default_f", "short_f")
+    fname = {"plain": "g" if isf else "plain_%d" % n, "traced": "f" if isf else "traced_%d" % n}
     for which in ("plain", "traced"):
-        name = "%s_%d" % (which, n)
+        name = fname[which]
         a = attr(case, n) if which == "traced" else ""
         b = body_src(case["body"], which == "traced", is_async)
         asy = "async " if is_async else ""
@@ -89,7 +91,7 @@ def gen_case(n, case):
         defs = "".join("    %s\n    pub %s {\n        %s\n    }\n" % f for f in fns)
 
     def call(which, log, path):
-        name = "%s_%d" % (which, n)
+        name = fname[which]
         recv = "S." if is_method else ""
         c = "%s%s(&mut %s, %s, &mut %s)" % (recv, name, log, ARGS, path)
         if is_async:
@@ -102,13 +104,18 @@ def gen_case(n, case):
         let mut slog = Log::new(); let mut spath = String::new();
         let split = {
             let (ra, rb) = crate::split_begin();
-            let fut = { let _g = ra.set_local_parent(); S.traced_%d(&mut slog, %s, &mut spath) };
+            let fut = { let _g = ra.set_local_parent(); S.%s(&mut slog, %s, &mut spath) };
             { let _g = rb.set_local_parent(); let _ = catch_unwind(AssertUnwindSafe(|| crate::block_on(fut))); }
             crate::split_end(ra, rb)
-        };""" % (n, ARGS)
+        };""" % (fname["traced"], ARGS)
     else:
         split = "        let split = Value::Array(vec![]);"
-    if case["naming"] == "short":
+    if case["naming"] == "short_f":
+        want_name = '"f".to_string()'
+    elif case["naming"] == "default_f":
+        # the plain twin is called `g`: its path with that segment renamed
+        want_name = 'ppath.replace("::g::", "::f::").strip_suffix("::g").map(|p| format!("{p}::f")).unwrap_or_else(|| ppath.replace("::g::", "::f::"))'
+    elif case["naming"] == "short":
         want_name = '"traced_%d".to_string()' % n
     elif case["naming"] == "custom":
         want_name = '"custom_%d".to_string()' % n
